@@ -145,6 +145,9 @@ func (in *Interp) intrinsic(fn *ssa.Function, args []Value) (Value, bool) {
 			}
 		}
 		return TFalse, true
+	case "verifBlockingIsViolation":
+		in.blockingIsViolation = true
+		return nil, true
 	case "verifOnBlock":
 		f := args[0].(Func)
 		in.onBlock = &f
